@@ -284,7 +284,7 @@ func (m *model) feed(line string) {
 	}
 	p := strings.SplitN(line, " ", 4)
 	if len(p) != 4 {
-		vrt.MachineryFault("unparsable child line %q", line)
+		fault("unparsable child line %q", line)
 	}
 	verb, kind, body := p[0], p[2], p[3]
 	var d struct {
@@ -298,7 +298,7 @@ func (m *model) feed(line string) {
 	case "ack open":
 		var o obs
 		if err := json.Unmarshal([]byte(body), &o); err != nil {
-			vrt.MachineryFault("unparsable child line %q: %v", line, err)
+			fault("unparsable child line %q: %v", line, err)
 		}
 		m.check(o, "seen by the reopening process")
 		m.adopt(o)
@@ -328,7 +328,7 @@ func (m *model) feed(line string) {
 			m.bad("operation-failed", "%s failed: %s", kind, d.Error)
 			return
 		}
-		vrt.MachineryFault("unparsable child line %q", line)
+		fault("unparsable child line %q", line)
 	}
 }
 
@@ -523,7 +523,7 @@ func runChild(work, db, ops string, traced bool, inject string, nth int) runResu
 	cmd.Stdout, cmd.Stderr = &out, &errb
 	err := cmd.Run()
 	if ctx.Err() != nil {
-		vrt.MachineryFault("child timed out (ops %q, inject %s:%d); stderr: %s", ops, inject, nth, errb.String())
+		fault("child timed out (ops %q, inject %s:%d); stderr: %s", ops, inject, nth, errb.String())
 	}
 	var r runResult
 	for _, l := range strings.Split(out.String(), "\n") {
@@ -534,15 +534,16 @@ func runChild(work, db, ops string, traced bool, inject string, nth int) runResu
 	if err != nil {
 		var ee *exec.ExitError
 		if !errors.As(err, &ee) {
-			vrt.MachineryFault("cannot run child: %v", err)
+			fault("cannot run child: %v", err)
 		}
 		r.Exit = ee.ExitCode()
 	}
 	if traced {
 		raw, rerr := os.ReadFile(logf)
 		if rerr != nil {
-			vrt.MachineryFault("strace left no log (is ptrace permitted here?): %v; stderr: %s", rerr, errb.String())
+			fault("strace left no log (is ptrace permitted here?): %v; stderr: %s", rerr, errb.String())
 		}
+		prevUnfinished := ""
 		for _, l := range strings.Split(string(raw), "\n") {
 			if strings.Contains(l, "+++ killed by SIGKILL +++") {
 				r.Killed = true
@@ -550,6 +551,17 @@ func runChild(work, db, ops string, traced bool, inject string, nth int) runResu
 			mm := callRe.FindStringSubmatch(l)
 			if mm == nil {
 				continue
+			}
+			// strace artefact when the thread group is killed: the call being entered is
+			// sometimes printed a second time, verbatim, under another thread's id
+			if strings.HasSuffix(l, "<unfinished ...>") {
+				if t := mm[1] + "(" + mm[2]; t == prevUnfinished {
+					continue
+				} else {
+					prevUnfinished = t
+				}
+			} else {
+				prevUnfinished = ""
 			}
 			file := ""
 			for _, pm := range pathRe.FindAllStringSubmatch(mm[2], -1) {
@@ -568,11 +580,11 @@ func runChild(work, db, ops string, traced bool, inject string, nth int) runResu
 			r.Calls = append(r.Calls, mm[1]+" x.db"+strings.TrimPrefix(file, db))
 		}
 		if len(r.Lines) == 0 {
-			vrt.MachineryFault("traced child did not start (exit %d); strace stderr: %s", r.Exit, errb.String())
+			fault("traced child did not start (exit %d); strace stderr: %s", r.Exit, errb.String())
 		}
 	}
 	if r.Exit == 4 {
-		vrt.MachineryFault("child usage error: %s", errb.String())
+		fault("child usage error: %s", errb.String())
 	}
 	return r
 }
@@ -591,10 +603,10 @@ func killRun(what, work, db, ops string, base []string, k int) runResult {
 	}
 	r := runChild(work, db, ops, true, name, nth)
 	if !r.Killed {
-		vrt.MachineryFault("%s: child was not killed at call %d of %d (%s #%d; exit %d) — injection refused or call sequence not reproducible", what, k, len(base), name, nth, r.Exit)
+		fault("%s: child was not killed at call %d of %d (%s #%d; exit %d) — injection refused or call sequence not reproducible", what, k, len(base), name, nth, r.Exit)
 	}
 	if strings.Join(r.Calls, ";") != strings.Join(base[:k], ";") {
-		vrt.MachineryFault("%s: killed at call %d (%s #%d) but the calls before the kill differ from the uninjected run:\n%v\n%v", what, k, name, nth, r.Calls, base[:k])
+		fault("%s: killed at call %d (%s #%d) but the calls before the kill differ from the uninjected run:\n%v\n%v", what, k, name, nth, r.Calls, base[:k])
 	}
 	return r
 }
@@ -602,38 +614,55 @@ func killRun(what, work, db, ops string, base []string, k int) runResult {
 func copyDir(src, dst string) {
 	os.RemoveAll(dst)
 	if err := os.MkdirAll(dst, 0o755); err != nil {
-		vrt.MachineryFault("%v", err)
+		fault("%v", err)
 	}
 	ents, err := os.ReadDir(src)
 	if err != nil {
-		vrt.MachineryFault("%v", err)
+		fault("%v", err)
 	}
 	for _, e := range ents {
 		in, err := os.Open(filepath.Join(src, e.Name()))
 		if err != nil {
-			vrt.MachineryFault("%v", err)
+			fault("%v", err)
 		}
 		out, err := os.Create(filepath.Join(dst, e.Name()))
 		if err != nil {
-			vrt.MachineryFault("%v", err)
+			fault("%v", err)
 		}
 		if _, err := io.Copy(out, in); err != nil {
-			vrt.MachineryFault("%v", err)
+			fault("%v", err)
 		}
 		in.Close()
 		out.Close()
 	}
 }
 
+// workDirs are the temporary directories of this process that still exist.
+var workDirs = map[string]bool{}
+
 func mkWork() string {
 	d, err := os.MkdirTemp("", "ebuverif-c14-")
 	if err != nil {
-		vrt.MachineryFault("%v", err)
+		fault("%v", err)
 	}
 	if r, err := filepath.EvalSymlinks(d); err == nil {
 		d = r
 	}
+	workDirs[d] = true
 	return d
+}
+
+func rmWork(d string) {
+	os.RemoveAll(d)
+	delete(workDirs, d)
+}
+
+// fault reports a harness problem (exit 2, never a violation) after removing scratch.
+func fault(format string, a ...any) {
+	for d := range workDirs {
+		os.RemoveAll(d)
+	}
+	vrt.MachineryFault(format, a...)
 }
 
 // ------------------------------------------------------------------ cases
@@ -680,14 +709,14 @@ type caseResult struct {
 func prepare(work string, hh history) (string, []string) {
 	d := filepath.Join(work, "d")
 	if err := os.MkdirAll(d, 0o755); err != nil {
-		vrt.MachineryFault("%v", err)
+		fault("%v", err)
 	}
 	db := filepath.Join(d, "x.db")
 	var log []string
 	if hh.Setup != "" {
 		r := runChild(work, db, hh.Setup, false, "", 0)
 		if r.Exit != 0 {
-			vrt.MachineryFault("setup of history %s failed: %v", hh.Name, r.Lines)
+			fault("setup of history %s failed: %v", hh.Name, r.Lines)
 		}
 		log = append(log, r.Lines...)
 		log = append(log, "")
@@ -717,7 +746,7 @@ func judge(cc crashCase, db string, log []string) caseResult {
 // cleanCase: the first p operations after the open, then a normal Close; no kill.
 func cleanCase(hh history, p int) caseResult {
 	work := mkWork()
-	defer os.RemoveAll(work)
+	defer rmWork(work)
 	db, log := prepare(work, hh)
 	ops := strings.Fields(hh.Ops)
 	if p+1 < len(ops) {
@@ -728,7 +757,7 @@ func cleanCase(hh history, p int) caseResult {
 	}
 	r := runChild(work, db, strings.Join(ops, " "), false, "", 0)
 	if r.Exit != 0 && r.Exit != 3 {
-		vrt.MachineryFault("clean-close child exit %d: %v", r.Exit, r.Lines)
+		fault("clean-close child exit %d: %v", r.Exit, r.Lines)
 	}
 	res := judge(crashCase{History: hh.Name, Clean: p}, db, append(log, r.Lines...))
 	res.Nontrivial = true
@@ -740,7 +769,7 @@ func cleanCase(hh history, p int) caseResult {
 // children counts the child processes run.
 func crashCases(hh history, base []string, k, level2 int, timeUp func() bool, emit func(caseResult)) (children int) {
 	work := mkWork()
-	defer os.RemoveAll(work)
+	defer rmWork(work)
 	db, log := prepare(work, hh)
 	if hh.Setup != "" {
 		children++
@@ -768,7 +797,7 @@ func crashCases(hh history, base []string, k, level2 int, timeUp func() bool, em
 	r0 := runChild(work, db, recoverOps, true, "", 0)
 	children++
 	if r0.Killed || (r0.Exit != 0 && r0.Exit != 3) {
-		vrt.MachineryFault("%s: uninjected recovery child exit %d: %v", what, r0.Exit, r0.Lines)
+		fault("%s: uninjected recovery child exit %d: %v", what, r0.Exit, r0.Lines)
 	}
 	base2 := r0.Calls
 	if level2 < 0 || level2 == len(base2)+1 {
@@ -803,17 +832,17 @@ func baseline(hh history, n int) []string {
 		work := mkWork()
 		db, _ := prepare(work, hh)
 		r := runChild(work, db, hh.Ops, true, "", 0)
-		os.RemoveAll(work)
+		rmWork(work)
 		if r.Exit != 0 || r.Killed {
-			vrt.MachineryFault("uninjected traced run of history %s failed (exit %d): %v", hh.Name, r.Exit, r.Lines)
+			fault("uninjected traced run of history %s failed (exit %d): %v", hh.Name, r.Exit, r.Lines)
 		}
 		if len(r.Calls) == 0 {
-			vrt.MachineryFault("history %s: strace saw no system call on the database files (path filter not working)", hh.Name)
+			fault("history %s: strace saw no system call on the database files (path filter not working)", hh.Name)
 		}
 		if i == 0 {
 			first = r.Calls
 		} else if strings.Join(first, ";") != strings.Join(r.Calls, ";") {
-			vrt.MachineryFault("history %s: system-call sequence not reproducible (%d vs %d calls)", hh.Name, len(first), len(r.Calls))
+			fault("history %s: system-call sequence not reproducible (%d vs %d calls)", hh.Name, len(first), len(r.Calls))
 		}
 	}
 	return first
@@ -823,11 +852,11 @@ func setup() {
 	var err error
 	self, err = os.Executable()
 	if err != nil {
-		vrt.MachineryFault("os.Executable: %v", err)
+		fault("os.Executable: %v", err)
 	}
 	stracePath, err = exec.LookPath("strace")
 	if err != nil {
-		vrt.MachineryFault("strace not available: %v", err)
+		fault("strace not available: %v", err)
 	}
 }
 
@@ -928,11 +957,11 @@ func replay(c *h.Check, rf *h.ReplayFile) []vrt.Violation {
 	setup()
 	var cc crashCase
 	if err := json.Unmarshal(rf.Ops, &cc); err != nil {
-		vrt.MachineryFault("replay: %v", err)
+		fault("replay: %v", err)
 	}
 	hh, ok := historyByName(cc.History)
 	if !ok {
-		vrt.MachineryFault("replay: unknown history %q", cc.History)
+		fault("replay: unknown history %q", cc.History)
 	}
 	var vs []vrt.Violation
 	var first string
@@ -943,7 +972,7 @@ func replay(c *h.Check, rf *h.ReplayFile) []vrt.Violation {
 		} else {
 			base := baseline(hh, 1)
 			if cc.K < 1 || cc.K > len(base) {
-				vrt.MachineryFault("replay: k=%d outside 1..%d", cc.K, len(base))
+				fault("replay: k=%d outside 1..%d", cc.K, len(base))
 			}
 			crashCases(hh, base, cc.K, cc.Level2K, func() bool { return false }, func(r caseResult) {
 				if r.Case == cc {
@@ -952,7 +981,7 @@ func replay(c *h.Check, rf *h.ReplayFile) []vrt.Violation {
 			})
 		}
 		if len(got) != 1 {
-			vrt.MachineryFault("replay: case %+v not reached (the recovery child makes a different number of calls on this tree)", cc)
+			fault("replay: case %+v not reached (the recovery child makes a different number of calls on this tree)", cc)
 		}
 		r := got[0]
 		var cur []vrt.Violation
@@ -963,7 +992,7 @@ func replay(c *h.Check, rf *h.ReplayFile) []vrt.Violation {
 		if i == 0 {
 			first, vs = o, cur
 		} else if o != first {
-			vrt.MachineryFault("replay not deterministic:\n%s\n%s", first, o)
+			fault("replay not deterministic:\n%s\n%s", first, o)
 		}
 	}
 	return vs
